@@ -9,18 +9,29 @@ package routine
 //
 //	bo <kind> <init ms> <mult ‰> <maxint ms> <rand ‰> <maxel ms> <interval ms> [<t ms> ...]
 //
-// logs the configuration (`boconf …`), the exported fields of the constructed BackOff (`boparams expo|const …`),
-// and for every t the answer of NextBackOff with a fake clock t ms after Reset (`bostop t 0|1`).
+// logs the configuration (`boconf …`), what GetEmpty / Validate(false) / Validate(true) say (`bovalid e v0 v1`), the
+// exported fields of the constructed BackOff (`boparams expo|const …`), and for every t the answer of NextBackOff
+// with a fake clock t ms after Reset (`bostop t 0|1`).
+//
+//	boretry <mode> <fails>
+//
+// runs a routine that fails <fails> times and then succeeds in a RoutineContainer built with
+// routine.WithRetry(conf): mode 0 conf = nil (no retry), 1 a real exponential configuration (1 ms, no
+// max_elapsed_time), 2 a real constant configuration (1 ms); logs how often it ran (`boruns present fails runs`).
 
 import (
+	"context"
+	"errors"
 	"fmt"
 	"math"
 	"math/rand"
 	"strconv"
 	"strings"
+	"sync/atomic"
 	"time"
 
 	"github.com/aperturerobotics/util/backoff"
+	rt "github.com/aperturerobotics/util/routine"
 	cbackoff "github.com/cenkalti/backoff/v4"
 
 	"verifharness/comp"
@@ -44,6 +55,17 @@ func execBackoff(script []string, opt comp.Options) (res comp.Result) {
 	}()
 	for _, step := range script {
 		f := strings.Fields(step)
+		if len(f) == 3 && f[0] == "boretry" {
+			mode, _ := strconv.Atoi(f[1])
+			fails, _ := strconv.Atoi(f[2])
+			if mode < 0 || mode > 2 || fails < 0 || fails > 4 {
+				continue
+			}
+			runs := retryRuns(mode, fails)
+			tags.Add(fmt.Sprintf("with-retry-%d", mode))
+			log.Add("boruns %d %d %d", b2i(mode != 0), fails, runs)
+			continue
+		}
 		if len(f) < 8 || f[0] != "bo" {
 			continue
 		}
@@ -73,6 +95,10 @@ func execBackoff(script []string, opt comp.Options) (res comp.Result) {
 			conf.Constant = &backoff.Constant{Interval: v[6]}
 		}
 		log.Add("boconf %d %d %d %d %d %d %d", v[0], v[1], v[2], v[3], v[4], v[5], v[6])
+		log.Add("bovalid %d %d %d", b2i(conf.GetEmpty()), b2i(conf.Validate(false) == nil), b2i(conf.Validate(true) == nil))
+		if conf.Validate(false) != nil {
+			tags.Add("invalid-config")
+		}
 		bo := conf.Construct()
 		var next func(t int64) bool
 		switch b := bo.(type) {
@@ -115,6 +141,43 @@ func execBackoff(script []string, opt comp.Options) (res comp.Result) {
 	return comp.Result{History: log.Lines(), Tags: tags.List()}
 }
 
+// retryRuns builds a RoutineContainer with routine.WithRetry and counts the runs of a routine that fails
+// `fails` times before it succeeds.
+func retryRuns(mode, fails int) int {
+	var conf *backoff.Backoff
+	switch mode {
+	case 1:
+		conf = &backoff.Backoff{BackoffKind: backoff.BackoffKind_BackoffKind_EXPONENTIAL,
+			Exponential: &backoff.Exponential{InitialInterval: 1, Multiplier: 1, MaxInterval: 2}}
+	case 2:
+		conf = &backoff.Backoff{BackoffKind: backoff.BackoffKind_BackoffKind_CONSTANT, Constant: &backoff.Constant{Interval: 1}}
+	}
+	var cnt atomic.Int32
+	rc := rt.NewRoutineContainer(rt.WithRetry(conf))
+	rc.SetRoutine(func(ctx context.Context) error {
+		if int(cnt.Add(1)) <= fails {
+			return errors.New("fail")
+		}
+		return nil
+	})
+	ctx, cancel := context.WithCancel(context.Background())
+	defer cancel()
+	rc.SetContext(ctx, false)
+	want := 1
+	if mode != 0 {
+		want = fails + 1
+	}
+	deadline := time.Now().Add(2 * time.Second)
+	for int(cnt.Load()) < want && time.Now().Before(deadline) {
+		time.Sleep(200 * time.Microsecond)
+	}
+	// nothing may run it again afterwards
+	time.Sleep(15 * time.Millisecond)
+	n := int(cnt.Load())
+	rc.ClearContext()
+	return n
+}
+
 func genBackoff(rng *rand.Rand, tier string) []string {
 	pick := func(xs ...int) int { return xs[rng.Intn(len(xs))] }
 	n := 2 + rng.Intn(4)
@@ -127,6 +190,9 @@ func genBackoff(rng *rand.Rand, tier string) []string {
 			line += fmt.Sprintf(" %d", pick(0, 500, 60000, 899000, 900001, 1000000, 2100000, 5000000))
 		}
 		out = append(out, line)
+	}
+	if rng.Intn(3) == 0 {
+		out = append(out, fmt.Sprintf("boretry %d %d", rng.Intn(3), rng.Intn(4)))
 	}
 	return out
 }
@@ -142,6 +208,8 @@ func init() {
 			{"bo 1 5 1500 50 0 1000 0 0 500 1001 60000", "bo 1 0 0 0 0 900000 0 899000 900001"},
 			// constant backoff and unknown kinds
 			{"bo 2 0 0 0 0 0 0 0 5000000", "bo 2 0 0 0 0 0 7 1000000", "bo 3 0 0 0 250 0 0 1000000"},
+			// routine.WithRetry with real configurations, and with nil
+			{"boretry 1 3", "boretry 0 2", "boretry 2 2", "boretry 1 0", "boretry 0 0"},
 		},
 	})
 }
